@@ -260,7 +260,7 @@ def run_config(chk, cfg):
     chk.expect("G3", "addressing sites [%s]" % cfg, n_addr, 3)
     # send-side advance, CAS hand-out (C04.R4), flag protocol and empty() sibling (C04.R5)
     chk.rule_prefix = "C04."
-    chk.rule_filter = lambda r: r.startswith(("R4", "R5", "R2.reservation"))
+    chk.rule_filter = lambda r: r.startswith(("R4", "R5", "R2", "R3", "R6"))
     C04.run_config(chk, cfg)
     chk.rule_prefix = ""
     chk.rule_filter = None
